@@ -1688,6 +1688,13 @@ pub fn corpus() -> Vec<(&'static str, Prog, Vec<usize>, usize)> {
             vec![(1u8, 1usize), (2u8, 1usize)],
             vec![vec![7, 0], vec![25, 6], vec![13, 1, 2], vec![7, 2], vec![13, 1, 3], vec![7, 3], vec![13, 1, 4], vec![7, 4], vec![12, 1], vec![25, 4]],
         );
+        // a node whose FIRST outgoing edge is null and whose second one owns a child: the cascade must go on past the
+        // null edge and release the child (C06 / C04; seed C06/2b turned `continue` into `break`)
+        let t0c = (
+            vec![(1u8, 1usize), (1u8, 2usize)],
+            vec![vec![20], vec![31, 1, 0, 1, 1], vec![21], vec![25, 5], vec![7, 1], vec![7, 0], vec![25, 8], vec![25, 4]],
+        );
+        out.push(("c06_null_first_edge_then_child", Prog { g0: 1, ncells: 0, nobj: 2, threads: vec![t0c] }, script.clone(), 64));
         out.push(("c05_repeated_upgrade_after_destruction", Prog { g0: 2, ncells: 0, nobj: 1, threads: vec![t0b] }, script.clone(), 64));
         out.push(("d4_upgrade_after_cascade", Prog { g0: 5, ncells: 0, nobj: 2, threads: vec![t0] }, script, 64));
     }
